@@ -28,7 +28,7 @@ type c19Case struct {
 func genC19(t *rapid.T) c19Case {
 	c := c19Case{H: genHistory(t, 20), Bad: -1}
 	w := runtime.NumCPU()
-	n := rapid.SampledFrom([]int{0, 1, 2, 3, w - 1, w, w + 1, 2*w + 1, 255, 256, 257, 300}).Draw(t, "len")
+	n := rapid.SampledFrom([]int{0, 1, 2, 3, w - 1, w, w + 1, 2*w + 1, 63, 64, 65, 255, 256, 257, 300, 1023, 1024, 1025, 4097}).Draw(t, "len")
 	if n < 0 {
 		n = 0
 	}
